@@ -139,6 +139,56 @@ func orphanScenario(c *Ctx, k int, braid bool, perm []int, extras bool, label st
 	c.Count("scenario." + label)
 }
 
+// longWait: a chain whose first vertex is withheld for so long that the buffer has handed out (and taken
+// back) far more entries than it can hold at once; every vertex stays well inside the 25-retries bound.
+func longWait(c *Ctx, k, rounds int) {
+	w := NewWorld(c)
+	defer w.Close()
+	w.quiet = true
+	a := w.NewNode()
+	w.NewNode()
+	b := w.NewNode()
+	w.NewWallet()
+	w.NewWallet()
+	w.quiet = false
+	w.Genesis(a, w.wallets[0].Address(), spice.Melange{Currency: 100000})
+	w.syncFrom(a, w.nodes[1])
+	w.syncFrom(a, b)
+	w.quiet = true
+	hist, origin := w.history(k, false)
+	w.quiet = false
+	want := origin.ab.VerifSnapshot()
+	info := map[string]interface{}{"section": "orphans", "scenario": "long-wait", "k": k, "rounds": rounds}
+	c.Mark(info)
+	for i := 1; i < k; i++ {
+		v := hist[i]
+		w.Add(b, &v)
+	}
+	pops := 0
+	for r := 0; r < rounds; r++ {
+		for i := 1; i < k; i++ {
+			if had, _ := w.Retry(b); had {
+				pops++
+			}
+		}
+	}
+	v0 := hist[0]
+	w.Add(b, &v0)
+	for i := 0; i < 40*k; i++ {
+		if had, _ := w.Retry(b); !had {
+			break
+		}
+	}
+	got := b.ab.VerifSnapshot()
+	c.Distinct(fmt.Sprintf("long-wait-k%d-r%d", k, rounds))
+	c.Rep.Extra["long_wait_retry_pops"] = pops
+	if len(got.Parked) != 0 || ledgerKey(&got) != ledgerKey(&want) {
+		c.Violate("C13", "long-parked-vertices-lost", fmt.Sprintf("%d vertices waited %d retry rounds (%d pops) for their ancestor: receiver ends with %d vertices (%d still parked), parents-first delivery gives %d",
+			k-1, rounds, pops, len(got.Vertices), len(got.Parked), len(want.Vertices)), info)
+	}
+	c.Count("scenario.long-wait")
+}
+
 func init() {
 	sections["orphans"] = func(c *Ctx) error {
 		c.Rep.Rule = "valid histories (chain or two-origin braid) of k vertices delivered to a synced node in all k! orders (k<=4 quick, k<=5 thorough; exhaustive) and random orders (k=12..20), with duplicates / corrupted copies / interleaved retries; retries until the buffer is empty; final ledger compared with parents-first delivery; non-trivial = distinct (shape, permutation)"
@@ -167,6 +217,11 @@ func init() {
 			rev[i] = 19 - i
 		}
 		orphanScenario(c, 20, false, rev, false, "reverse20")
+		// many unsuccessful retries before the missing ancestor arrives (more pops than the buffer holds)
+		longWait(c, 60, 9)
+		if c.Tier == "thorough" {
+			longWait(c, 120, 12)
+		}
 		c.Rep.Extra["exhaustive_up_to_k"] = kmax
 		c.Rep.Extra["exhaustive"] = exhaustive
 		c.Sample(map[string]interface{}{"k": 4, "perm": []int{3, 1, 0, 2}, "ops": "ADD b v3 (noParent, parked); ADD b v1 (noParent); ADD b v0 (ok); ADD b v2 (noParent); RETRY* until empty"})
